@@ -1,2 +1,54 @@
-"""C04 -- not claimed."""
-NOT_APPLICABLE = "needs executions under the C++ memory model that are not sequentially consistent; CBMC's --mm tso/pso are hardware models and the planned vector-clock (happens-before) instrumentation was not built; SC-only race freedom would not decide the stated property"
+"""C04 -- no data races / visibility, PARTIAL: happens-before ghost (vector clocks driven by the memory orders in the IR) over the
+Tier K kernels.  Explores sequentially consistent interleavings only; see MANIFEST level_note for what that leaves out."""
+import importlib
+import core
+
+HOSTS = ['C01', 'C06', 'C11', 'C16']
+
+
+def plan(tier, seed, ctx):
+    modules, mopts, queries = {}, {}, []
+    for h in HOSTS:
+        hp = importlib.import_module('checks.' + h).plan(tier, seed, ctx)
+        for q in hp['queries']:
+            mo = hp['module_opts'].get(q['module'], {})
+            if not mo.get('scalar_mem'):
+                continue  # only Tier K (thread-encoded) kernels carry the ghost
+            mn = q['module'] + '_hb'
+            if mn not in modules:
+                modules[mn] = hp['modules'][q['module']]
+                o = dict(mo)
+                o['hb'] = True
+                mopts[mn] = o
+            q2 = dict(q)
+            q2['module'] = mn
+            q2['name'] = q['name'] + '_hb'
+            q2['entry'] = q.get('entry', q['name'])
+            q2['sample'] = 'happens-before ghost on: ' + q.get('sample', '')
+            q2['timeout'] = max(q.get('timeout', 300), 900)
+            queries.append(q2)
+    meta = {
+        'rule': 'Every Tier K kernel query of C01, C06, C11 and C16 is re-run with the happens-before ghost: per-thread vector clocks, a release clock per atomic word, acquire/release fence '
+                'clocks, all driven by the memory_order operands found in the IR (release sequences through RMWs, relaxed stores reset them, fences as in [atomics.fences]); the plain payload '
+                'accesses of the harness (write before fulfilment / Done, read after each kind of completion observation) assert FastTrack\'s write->read and write->write conditions.',
+        'bounds': {'threads': '<= 4', 'tracked_plain_variables': '1-2 per kernel', 'executions': 'sequentially consistent interleavings only'},
+        'stubs': ['as the host kernels'],
+        'assumptions': ['executions that are not sequentially consistent are NOT explored: a defect that only shows through a non-SC outcome of relaxed atomics while all SC executions are race-free is outside the claim',
+                        'only the designated payload accesses are tracked, not every plain access of the library; Strand, Mutex/SharedMutex, FairThreadPool, When* ordering are not covered (no Tier K kernel for them)',
+                        'reference-count destruction ordering is not tracked'],
+        'functions_filter': r'(BaseCore|OneShotEvent|AtomicCounter|WaitRange|c01k|c06k|c11k|c16k)',
+        'explanation': 'Ghost in rt/vp_rt.c (VP_HB). Real code as the host kernels: base_core.cpp (unique and shared words), one_shot_event.cpp, atomic_counter.hpp (SubEqual release + acquire fence), wait_impl.hpp.',
+    }
+    return {'modules': modules, 'queries': queries, 'meta': meta, 'module_opts': mopts}
+
+
+MANIFEST = {
+    'level_text': 'PARTIAL claim. For the kernels of the Future/Promise word, the shared-core list, WaitRange and OneShotEvent/WaitGroup the solver shows, over every sequentially consistent interleaving, that '
+                  'what the producer wrote before fulfilling (resp. before Done) is ordered by happens-before - as defined by the memory orders actually present in the compiled code - before every read made '
+                  'after observing completion (continuation, Ready()==true, Wait return, released waiter). A memory order weakened to relaxed, a dropped fence or a store where an RMW is needed breaks the '
+                  'clock propagation and fails the assertion although behaviour under SC (and on x86) is unchanged.',
+    'level_note': 'NOT the full property: only SC interleavings are explored (CBMC has no C++11 memory model), only designated payload accesses are tracked, and Strand / Mutex / SharedMutex / thread pool / '
+                  'combinator orderings and refcount-destruction ordering are not covered. Trusted: clang -O1 IR (memory orders as emitted), ir2c, the ghost in rt/vp_rt.c, cbmc.',
+    'technique': 'bounded model checking under CBMC\'s thread encoding with a vector-clock happens-before ghost driven by the IR\'s memory orders',
+    'design_ref': 'DESIGN.md 4 C04',
+}
